@@ -12,7 +12,7 @@ LEVEL_TEXT = ("Lean theorem C14_full_holds: for every MaxConnections and every h
               "handshakes, any number of shell requests and closes, the reported number of connections equals the number actually open, is "
               "never negative and never exceeds the limit; C14_accept_iff: a connect is accepted exactly when fewer are open; tied to the "
               "code by scripted histories against a real in-process server (server.New().Start), the harness speaking SSH itself and reading "
-              "the counter after every step")
+              "the counter after every step; every step also observes the ESTABLISHED sockets the server side holds (/proc/self/net/tcp) and demands counter = sockets; peers that stay silent for 11 s and more before they log in")
 TRUSTED = ["Lean 4 kernel", "axioms: propext, Quot.sound, Classical.choice (at most)", "overlay harness + dtmodel driver + this diff",
            "modelled not verified: golang.org/x/crypto/ssh (NewServerConn fails for bad credentials and vanished clients, the channel stream "
            "of a connection ends when the connection ends), the TCP stack, goroutine scheduling (one interleaving per script)"]
